@@ -1272,6 +1272,7 @@ pub fn live_short_ttl() -> Vec<Case> {
         while t0.elapsed() < Duration::from_secs(2) && !seen {
             let _ = sock.send_to(&announce(svc, "long", 120), "224.0.0.251:5353");
             let _ = sock.send_to(&announce(svc, "short", 8), "224.0.0.251:5353");
+            let _ = sock.send_to(&announce(svc, "mid", 32), "224.0.0.251:5353");
             std::thread::sleep(Duration::from_millis(150));
             let k = sd.get_known_services();
             seen = k.iter().any(|i| i.unescaped_instance_name() == "short") && k.iter().any(|i| i.unescaped_instance_name() == "long");
@@ -1282,6 +1283,13 @@ pub fn live_short_ttl() -> Vec<Case> {
         let k = sd.get_known_services();
         if !k.iter().any(|i| i.unescaped_instance_name() == "long") { return c.tag("sockets-not-exercised"); }
         if !k.iter().any(|i| i.unescaped_instance_name() == "short") { c = c.fail("cache-expiry", "sync listener: an instance received with TTL 8 is no longer known 6 s later (another one with TTL 120 is)".into()); } else { c = c.tag("sockets-alive"); }
+        // ... and one received with TTL 32 is still known 27 s later, although nobody answered the refresh query the
+        // listener sent for it at half its life
+        if c.oracle_fail.is_none() && k.iter().any(|i| i.unescaped_instance_name() == "mid") {
+            while received.elapsed() < Duration::from_millis(27000) { std::thread::sleep(Duration::from_millis(200)); }
+            let k = sd.get_known_services();
+            if k.iter().any(|i| i.unescaped_instance_name() == "long") && !k.iter().any(|i| i.unescaped_instance_name() == "mid") { c = c.fail("cache-expiry", "sync listener: an instance received with TTL 32 is no longer known 27 s later (another one with TTL 120 is)".into()); }
+        }
         c
     });
     let tokio_case = std::thread::spawn(move || -> Case {
@@ -1300,6 +1308,7 @@ pub fn live_short_ttl() -> Vec<Case> {
             while t0.elapsed() < Duration::from_secs(2) && !seen {
                 let _ = sock.send_to(&announce(svc, "long", 120), "224.0.0.251:5353");
                 let _ = sock.send_to(&announce(svc, "short", 8), "224.0.0.251:5353");
+                let _ = sock.send_to(&announce(svc, "mid", 32), "224.0.0.251:5353");
                 tokio::time::sleep(Duration::from_millis(150)).await;
                 let k = sd.get_known_services().await;
                 seen = k.iter().any(|i| i.unescaped_instance_name() == "short") && k.iter().any(|i| i.unescaped_instance_name() == "long");
@@ -1309,6 +1318,11 @@ pub fn live_short_ttl() -> Vec<Case> {
             let k = sd.get_known_services().await;
             if !k.iter().any(|i| i.unescaped_instance_name() == "long") { return c.tag("sockets-not-exercised"); }
             if !k.iter().any(|i| i.unescaped_instance_name() == "short") { c = c.fail("cache-expiry", "tokio listener: an instance received with TTL 8 is no longer known 6 s later (another one with TTL 120 is)".into()); } else { c = c.tag("sockets-alive"); }
+            if c.oracle_fail.is_none() && k.iter().any(|i| i.unescaped_instance_name() == "mid") {
+                tokio::time::sleep(Duration::from_millis(21000)).await;
+                let k = sd.get_known_services().await;
+                if k.iter().any(|i| i.unescaped_instance_name() == "long") && !k.iter().any(|i| i.unescaped_instance_name() == "mid") { c = c.fail("cache-expiry", "tokio listener: an instance received with TTL 32 is no longer known 27 s later (another one with TTL 120 is)".into()); }
+            }
             c
         })
     });
